@@ -9,6 +9,7 @@ pub fn dispatch(kind: u32, v: &Val) -> Option<Val> {
     match kind {
         1901 => Some(run_interpolate(v)),
         1902 => Some(run_oracle(v)),
+        1903 => Some(run_glue(v)),
         _ => None,
     }
 }
@@ -182,4 +183,202 @@ pub fn run_oracle(v: &Val) -> Val {
     ]);
     let verdict = Val::L(vec![Val::of_bool(out == expected), Val::of_bool(d2), Val::of_bytes(&expected)]);
     Val::L(vec![Val::N(0), Val::of_bytes(&out), model_case, verdict])
+}
+
+/// A sink that forwards everything to the real printer sink and records, for every matched event,
+/// the searcher's WHOLE buffer and the range of the matched lines in it (what StandardSink::matched
+/// is supposed to hand to the Replacer).
+struct TeeFull<'a, S: Sink> {
+    inner: S,
+    events: &'a std::cell::RefCell<Vec<(Vec<u8>, usize, usize)>>,
+}
+impl<'a, S: Sink> Sink for TeeFull<'a, S> {
+    type Error = S::Error;
+    fn matched(&mut self, s: &Searcher, m: &SinkMatch<'_>) -> Result<bool, S::Error> {
+        let r = m.bytes_range_in_buffer();
+        self.events.borrow_mut().push((m.buffer().to_vec(), r.start, r.end));
+        self.inner.matched(s, m)
+    }
+    fn context(&mut self, s: &Searcher, c: &SinkContext<'_>) -> Result<bool, S::Error> { self.inner.context(s, c) }
+    fn context_break(&mut self, s: &Searcher) -> Result<bool, S::Error> { self.inner.context_break(s) }
+    fn binary_data(&mut self, s: &Searcher, o: u64) -> Result<bool, S::Error> { self.inner.binary_data(s, o) }
+    fn begin(&mut self, s: &Searcher) -> Result<bool, S::Error> { self.inner.begin(s) }
+    fn finish(&mut self, s: &Searcher, f: &SinkFinish) -> Result<(), S::Error> { self.inner.finish(s, f) }
+}
+
+/// The documented window of the replacement pass (printer/src/util.rs, the comment in
+/// find_iter_at_in_context): multi-line -> at most MAX_LOOK_AHEAD = 128 bytes after the range;
+/// line search -> the buffer up to the end of the last line's content.
+fn glue_window(buf: &[u8], rend: usize, is_ml: bool, crlf: bool) -> usize {
+    if is_ml {
+        if buf.len() - rend >= 128 { rend + 128 } else { buf.len() }
+    } else {
+        let mut hend = rend;
+        if hend > 0 && buf[hend - 1] == b'\n' {
+            hend -= 1;
+            if crlf && hend > 0 && buf[hend - 1] == b'\r' { hend -= 1; }
+        }
+        hend
+    }
+}
+
+fn write_piece(out: &mut Vec<u8>, piece: &[u8], term: &[u8], crlf: bool) {
+    out.extend_from_slice(piece);
+    let ended = if crlf { piece.ends_with(b"\n") } else { piece.ends_with(term) };
+    if !ended { out.extend_from_slice(term); }
+}
+
+/// kind 1903 — the call site of the Replacer in the standard printer (StandardSink::matched).
+/// case: (pattern template input crlf only_matching multiline)
+/// result: (status code_output model_case oracle_verdict)
+///   status 0 = ran, 1 = pattern rejected, 2 = search error, 3 = the printer panicked
+///   model_case = (template names crlf only_matching is_multi_line events),
+///                event = (buffer rs re window_len table)   table: captures_at(window, p) for p in 0..=window_len
+///   oracle_verdict = (agree d2_class expected_output window_class)
+///   oracle: the regex crate's successive matches of the WHOLE buffer that start inside the range are
+///   replaced by their expansions, the rest of the range is copied.
+pub fn run_glue(v: &Val) -> Val {
+    let pattern = String::from_utf8(v.fld(0).bytes()).unwrap_or_default();
+    let template = v.fld(1).bytes();
+    let input = v.fld(2).bytes();
+    let crlf = v.fld(3).b();
+    let only = v.fld(4).b();
+    let multiline = v.fld(5).b();
+    let opts = crate::rgcfg::RgOpts { crlf, text: true, multiline, ..Default::default() };
+    let matcher = match crate::rgcfg::matcher(&[pattern.clone()], &opts) {
+        Ok(m) => m,
+        Err(_) => return Val::L(vec![Val::N(1)]),
+    };
+    let mut rb = regex::bytes::RegexBuilder::new(&pattern);
+    rb.multi_line(true).unicode(true);
+    if crlf { rb.crlf(true); }
+    let re = match rb.build() {
+        Ok(r) => r,
+        Err(_) => return Val::L(vec![Val::N(1)]),
+    };
+    let mut sb = crate::rgcfg::searcher_builder(&opts);
+    sb.line_number(false);
+    let mut searcher = sb.build();
+    let is_ml = searcher.multi_line_with_matcher(&matcher);
+    let events = std::cell::RefCell::new(vec![]);
+    let run = std::panic::catch_unwind(std::panic::AssertUnwindSafe(|| {
+        let mut printer = StandardBuilder::new()
+            .replacement(Some(template.clone()))
+            .only_matching(only)
+            .build_no_color(vec![]);
+        let r = {
+            let sink = printer.sink(&matcher);
+            let tee = TeeFull { inner: sink, events: &events };
+            searcher.search_slice(&matcher, &input, tee)
+        };
+        r.map(|_| printer.into_inner().into_inner())
+    }));
+    let (status, out): (u128, Vec<u8>) = match run {
+        Ok(Ok(o)) => (0, o),
+        Ok(Err(_)) => return Val::L(vec![Val::N(2)]),
+        Err(_) => (3, b"PANIC".to_vec()),
+    };
+    let events = events.into_inner();
+    let names: Vec<Val> = re
+        .capture_names()
+        .enumerate()
+        .filter_map(|(i, n)| n.map(|n| Val::L(vec![Val::of_bytes(n.as_bytes()), Val::of_us(i)])))
+        .collect();
+    let term: &[u8] = if crlf { b"\r\n" } else { b"\n" };
+    let mut evs = vec![];
+    let mut expected = vec![];
+    let mut d2 = false;
+    let mut window_class = false;
+    for (buf, rs, rend) in &events {
+        let wlen = glue_window(buf, *rend, is_ml, crlf);
+        let hay = &buf[..wlen];
+        let mut table = vec![];
+        let mut caps = matcher.new_captures().unwrap();
+        for p in 0..=hay.len() {
+            if p < *rs { table.push(Val::L(vec![])); continue; }
+            match matcher.captures_at(hay, p, &mut caps) {
+                Ok(true) => table.push(Val::L(vec![caps_to_val(&caps)])),
+                _ => table.push(Val::L(vec![])),
+            }
+        }
+        evs.push(Val::L(vec![Val::of_bytes(buf), Val::of_us(*rs), Val::of_us(*rend), Val::of_us(wlen), Val::L(table)]));
+        // ---- oracle
+        // the text the pattern is matched against: the whole buffer for a multi-line searcher, the
+        // line's content (no terminator) for a line searcher, as in kind 1902
+        let (otext, obase): (&[u8], usize) = if multiline { (&buf[..], 0) } else { (&buf[*rs..wlen], *rs) };
+        let mut dst = vec![];
+        let mut pieces: Vec<Vec<u8>> = vec![];
+        let mut last = *rs;
+        let unterminated = *rend == buf.len() && !buf[..*rend].ends_with(b"\n");
+        for c in re.captures_iter(otext) {
+            let m = c.get(0).unwrap();
+            let (s, e) = (m.start() + obase, m.end() + obase);
+            if s < *rs || s > *rend { continue; }
+            if s == *rend {
+                // a match at the very end of an unterminated last line belongs to that line (class D2)
+                if !(unterminated && s == e) { continue; }
+                d2 = true;
+            }
+            if s < last { continue; }
+            dst.extend_from_slice(&buf[last..s]);
+            let mut x = vec![];
+            c.expand(&template, &mut x);
+            dst.extend_from_slice(&x);
+            pieces.push(x);
+            last = e;
+        }
+        // a line search replaces within the line's content; the terminator is written by the printer
+        let tail_end = if is_ml { *rend } else { wlen };
+        if last <= tail_end { dst.extend_from_slice(&buf[last..tail_end]); }
+        // is the window shorter than the buffer, and does the window's own end produce a match
+        // that the whole buffer does not have?  (class: MAX_LOOK_AHEAD window)
+        if is_ml && wlen < buf.len() {
+            let a: Vec<(usize, usize)> = re.find_iter(hay).map(|m| (m.start(), m.end())).filter(|m| m.0 >= *rs && m.0 < *rend).collect();
+            let b: Vec<(usize, usize)> = re.find_iter(buf).map(|m| (m.start(), m.end())).filter(|m| m.0 >= *rs && m.0 < *rend).collect();
+            if a != b { window_class = true; }
+        }
+        if !is_ml {
+            // one line per event (as kind 1902)
+            if pieces.is_empty() {
+                write_piece(&mut expected, &buf[*rs..*rend], term, crlf);
+            } else if only {
+                for x in &pieces { write_piece(&mut expected, x, term, crlf); }
+            } else {
+                write_piece(&mut expected, &dst, term, crlf);
+            }
+        } else {
+            // documented multi-line output: the text is printed line by line, every line ends with
+            // the line terminator; with -o only the (non-empty) parts of the replacements on each line
+            let texts: Vec<&[u8]> = if pieces.is_empty() { vec![&buf[*rs..*rend]] }
+                                    else if only { pieces.iter().map(|x| &x[..]).collect() }
+                                    else { vec![&dst[..]] };
+            let skip_empty = only && !pieces.is_empty();
+            for t in texts {
+                let mut rest = t;
+                while !rest.is_empty() {
+                    let (mut line, terminated, next) = match rest.iter().position(|&b| b == b'\n') {
+                        Some(i) => (&rest[..i], true, &rest[i + 1..]),
+                        None => (rest, false, &rest[rest.len()..]),
+                    };
+                    if crlf && terminated && line.ends_with(b"\r") { line = &line[..line.len() - 1]; }
+                    if !(skip_empty && line.is_empty()) {
+                        expected.extend_from_slice(line);
+                        expected.extend_from_slice(term);
+                    }
+                    rest = next;
+                }
+            }
+        }
+    }
+    let model_case = Val::L(vec![
+        Val::of_bytes(&template),
+        Val::L(names),
+        Val::of_bool(crlf),
+        Val::of_bool(only),
+        Val::of_bool(is_ml),
+        Val::L(evs),
+    ]);
+    let verdict = Val::L(vec![Val::of_bool(status == 0 && out == expected), Val::of_bool(d2), Val::of_bytes(&expected),
+                              Val::of_bool(window_class)]);
+    Val::L(vec![Val::N(status), Val::of_bytes(&out), model_case, verdict])
 }
